@@ -1,4 +1,466 @@
-import Sio.Model.Simple
+/-
+  C19 — SimpleClient / AsyncSimpleClient: events are received once each, in arrival order.
+
+  Every theorem quantifies over ALL schedules (`sched : List Choice`, any length): which thread
+  makes its next access to `input_buffer` / `input_event` / `connected_event` / `connected`, when a
+  timed wait expires, when the application starts its next call (Sio/Model/Simple.lean).
+  `run init sched` is the thread variant, `Async.run init sched` the asyncio variant (whose steps are
+  blocks of thread steps: `async_schedule_is_thread_schedule`).
+
+  A log entry `(o, v)` is a finished call: `o` its outcome, `v` the snapshot of the state in which it
+  finished (`log_is_snapshot`).
+-/
+import Sio.Lemmas.Simple
 namespace Sio.C19
-theorem placeholder_stub : True := trivial
+open Sio.Simple
+
+/-! ## the log records the state in which a call finished -/
+
+theorem log_is_snapshot (s : State) (c : Choice) :
+    (step s c).log = s.log ∨ ∃ o, (step s c).log = s.log ++ [(o, view s)] := by
+  cases c with
+  | prod => left; simp only [step, prodStep]; split <;> rfl
+  | timeout =>
+    simp only [step, timeoutStep]; split
+    · right; exact ⟨_, rfl⟩
+    · left; rfl
+  | conn k =>
+    left; simp only [step, connStep]; split
+    · cases k <;> rfl
+    · rfl
+    · rfl
+  | start op =>
+    left; simp only [step, startStep]; split
+    · cases op <;> rfl
+    · rfl
+  | cons ok =>
+    simp only [step, consStep]
+    split
+    case h_9 =>
+      split
+      · right; exact ⟨_, rfl⟩
+      · right; exact ⟨_, rfl⟩
+    all_goals first
+      | (left; rfl)
+      | (split
+         · first | (left; rfl) | (right; exact ⟨_, rfl⟩)
+         · first | (left; rfl) | (right; exact ⟨_, rfl⟩))
+
+/-! ## once each, in arrival order -/
+
+/-- No loss, no duplicate, no overtaking: at every step of every schedule the arrivals are exactly
+    the events already returned followed by the events still in the buffer. -/
+theorem conservation (sched : List Choice) :
+    (run init sched).arrived = (run init sched).returned ++ (run init sched).buf :=
+  (inv_reach sched).conserve
+
+/-- `returned ⊑ arrived`. -/
+theorem fifo_once (sched : List Choice) :
+    (run init sched).returned <+: (run init sched).arrived :=
+  ⟨_, (conservation sched).symm⟩
+
+/-- arrivals are pairwise distinct (the n-th append carries n), so a prefix has no repetition. -/
+theorem arrivals_distinct (sched : List Choice) : (run init sched).arrived.Nodup := by
+  rw [(inv_reach sched).ids]; exact List.nodup_range
+
+theorem returned_distinct (sched : List Choice) : (run init sched).returned.Nodup := by
+  have h := arrivals_distinct sched
+  rw [conservation sched] at h
+  exact (List.nodup_append.mp h).1
+
+/-- the k-th value returned is the k-th arrival, and it was the head of the buffer. -/
+theorem returns_kth_arrival (sched : List Choice) (x : Nat) (v : View)
+    (h : (Outcome.returned x, v) ∈ (run init sched).log) :
+    x = v.returnedN ∧ v.buf.head? = some x := by
+  have := (inv_reach sched).logOK _ h
+  simp only [Good] at this
+  exact ⟨this.2.2, this.2.1⟩
+
+/-- `pop(0)` never meets an empty buffer. -/
+theorem no_index_error (sched : List Choice) (v : View) :
+    (Outcome.indexErr, v) ∉ (run init sched).log := by
+  intro h
+  have := (inv_reach sched).logOK _ h
+  simp [Good] at this
+
+/-! ## no lost wake-up -/
+
+/-- Indexed by the consumer's pc: parked in `input_event.wait` (r3w) or about to call it (r3) with
+    a non-empty buffer, the consumer has been notified / the flag is set, or the producer is between
+    `append` and `set`. -/
+theorem no_lost_wakeup (sched : List Choice) :
+    let s := run init sched
+    (s.cpc = .r3w → s.buf ≠ [] → s.woken = true ∨ s.ppc = .appended) ∧
+    (s.cpc = .r3 → s.buf ≠ [] → s.iev = true ∨ s.ppc = .appended) := by
+  intro s
+  have hi : Inv s := inv_reach sched
+  have hlen : s.buf ≠ [] → s.returned.length < s.arrived.length := by
+    intro hb
+    have := congrArg List.length hi.conserve
+    have : 0 < s.buf.length := List.length_pos_iff.mpr hb
+    simp only [List.length_append] at *
+    omega
+  constructor
+  · intro hc hb
+    cases hw : s.woken
+    · right
+      have h1 := (hi.unsigW hc hw).1
+      cases hp : s.ppc
+      · have := hi.sigIdle hp; have := hlen hb; omega
+      · rfl
+    · left; rfl
+  · intro hc hb
+    cases hv : s.iev
+    · right
+      have h1 := hi.unsig (by simp [hc, CPc.preInput]) hv
+      cases hp : s.ppc
+      · have := hi.sigIdle hp; have := hlen hb; omega
+      · rfl
+    · left; rfl
+
+example : let s := run init [.conn .connect, .conn .connect, .start (.recv false), .cons true,
+    .cons true, .cons true, .cons true, .prod]
+    s.cpc = .r3w ∧ s.buf ≠ [] ∧ s.woken = false ∧ s.ppc = .appended := by decide
+
+/-- … so a parked `receive()` with an available event always becomes enabled: the producer's next
+    step (its `set`) notifies it, and four consumer steps later it has returned the head of the
+    buffer (whatever else was appended meanwhile is behind it). -/
+theorem parked_receive_is_released (s : State) (x : Nat) (rest : List Nat)
+    (hc : s.cpc = .r3w) (hp : s.ppc = .appended) (hb : s.buf = x :: rest) (b1 b2 b3 b4 : Bool) :
+    blocked (step s .prod) = false ∧
+    (run s [.prod, .cons b1, .cons b2, .cons b3, .cons b4]).log.map Prod.fst =
+      s.log.map Prod.fst ++ [.returned x] := by
+  constructor
+  · simp [step, prodStep, hp, setInput, hc, blocked]
+  · simp [run, step, prodStep, hp, setInput, hc, consStep, hb, finish]
+
+/-! ## TimeoutError -/
+
+/-- number of arrivals that are *available*: signalled (append + set done) and not yet returned. -/
+def available (v : View) : Nat := v.signalled - v.returnedN
+
+/-- outcomes of the finished calls, oldest first -/
+def outcomes (s : State) : List Outcome := s.log.map Prod.fst
+
+/-
+  FULL STATEMENT (false for this version of the code, see `timeout_full_statement_fails`):
+
+    theorem timeout_only_when_unsignalled (sched) (v) :
+        (Outcome.timeoutErr, v) ∈ (run init sched).log → available v = 0
+
+  It fails only for a timeout of the wait on `connected_event` (pc r1w): `receive()` tests the buffer
+  at the loop head and does not look at it again before / while waiting for the connection.
+-/
+
+/-- TimeoutError is raised only by a `receive(timeout)` that is parked and not notified; if it is
+    parked on `input_event`, no arrival is available (every signalled arrival has been returned) and
+    the flag is clear; otherwise it is parked on `connected_event` with that flag clear (connection
+    lost or not yet established). -/
+theorem timeout_only_when_unsignalled_partial (sched : List Choice) (v : View)
+    (h : (Outcome.timeoutErr, v) ∈ (run init sched).log) :
+    v.tmo = true ∧ v.woken = false ∧
+    ((v.pc = .r3w ∧ available v = 0 ∧ v.iev = false) ∨ (v.pc = .r1w ∧ v.cev = false)) := by
+  have := (inv_reach sched).logOK _ h
+  simp only [Good] at this
+  refine ⟨this.1, this.2.1, ?_⟩
+  rcases this.2.2 with ⟨a, b, c⟩ | ⟨a, b⟩
+  · left; exact ⟨a, by simp only [available]; omega, c⟩
+  · right; exact ⟨a, b⟩
+
+/-- the excluded region as a decidable hypothesis: a timeout that is not one of the connection wait. -/
+theorem timeout_only_when_unsignalled_of_input_wait (sched : List Choice) (v : View)
+    (h : (Outcome.timeoutErr, v) ∈ (run init sched).log) (hpc : v.pc ≠ .r1w) : available v = 0 := by
+  rcases (timeout_only_when_unsignalled_partial sched v h).2.2 with ⟨_, b, _⟩ | ⟨a, _⟩
+  · exact b
+  · exact absurd a hpc
+
+/-- the schedule reported in KNOWN_FINDINGS (recv-at-connection-wait-ignores-buffer): connect handler;
+    receive(timeout) finds the buffer empty; an event arrives (append, set); disconnect handler;
+    receive parks on connected_event; its timeout expires. -/
+def timeoutWitness : List Choice :=
+  [.conn .connect, .conn .connect, .start (.recv true), .cons true, .prod, .prod,
+   .conn .disconnect, .cons true, .timeout]
+
+theorem timeout_full_statement_fails :
+    ¬ ∀ (sched : List Choice) (v : View),
+        (Outcome.timeoutErr, v) ∈ (run init sched).log → available v = 0 := by
+  intro h
+  have hall : ((run init timeoutWitness).log.all
+      fun e => e.1 != .timeoutErr || decide (available e.2 = 0)) = true := by
+    rw [List.all_eq_true]; intro ⟨o, v⟩ he
+    by_cases ho : o = .timeoutErr
+    · subst ho; simp [h timeoutWitness v he]
+    · simp [ho]
+  revert hall; decide
+
+/-- the same region without a timeout: the call stays parked with an available event. -/
+theorem held_back_witness :
+    let s := run init timeoutWitness.dropLast
+    blocked s = true ∧ s.cpc = .r1w ∧ s.buf = [0] ∧ s.signalled = 1 ∧ s.returned = [] := by decide
+
+/-- … and the event is not lost: whenever a call is over and the buffer is non-empty, the next
+    `receive()` returns its head without waiting for anything (two consumer steps). -/
+theorem next_receive_returns_head (s : State) (x : Nat) (rest : List Nat) (t b1 b2 : Bool)
+    (hc : s.cpc = .idle) (hb : s.buf = x :: rest) :
+    (run s [.start (.recv t), .cons b1, .cons b2]).log.map Prod.fst =
+      s.log.map Prod.fst ++ [.returned x] := by
+  simp [run, step, startStep, hc, consStep, hb, finish]
+
+/-! ## DisconnectedError -/
+
+/-
+  FULL STATEMENT (false for this version of the code, see `disconnected_full_statement_fails`):
+
+    theorem disconnected_after_drain (sched) (v) :
+        (Outcome.disconnectedErr, v) ∈ (run init sched).log → v.pc = .r2 → v.buf = [] ∧ v.ended = true
+
+  `ended` always holds; `buf = []` fails when an event arrives between the empty-buffer test and the
+  read of `self.connected`.
+-/
+
+/-- DisconnectedError (from receive, emit or call) is raised only after `__disconnect_final` (the
+    last connect/final handler started is `final`, and some handler ran at all). For `receive()`:
+    every event that had arrived when it last tested the buffer has been returned, and if none has
+    arrived since that test the buffer is empty. -/
+theorem disconnected_after_drain_partial (sched : List Choice) (v : View)
+    (h : (Outcome.disconnectedErr, v) ∈ (run init sched).log) :
+    v.ended = true ∧ v.conn = false ∧ v.fresh = false ∧ (v.pc = .r2 ∨ v.pc = .e2) ∧
+    (v.pc = .r2 → v.returnedN = v.seen ∧ v.seen ≤ v.arrivedN ∧ (v.arrivedN = v.seen → v.buf = [])) := by
+  have := (inv_reach sched).logOK _ h
+  simp only [Good] at this
+  obtain ⟨h1, h2, h3, h4⟩ := this
+  refine ⟨h1, h2, h3, ?_, ?_⟩
+  · rcases h4 with ⟨a, _⟩ | a
+    · left; exact a
+    · right; exact a
+  · intro hpc
+    rcases h4 with ⟨_, b, c, d⟩ | a
+    · refine ⟨b, c, ?_⟩
+      intro he
+      have : v.buf.length = 0 := by omega
+      exact List.length_eq_zero_iff.mp this
+    · rw [hpc] at a; cases a
+
+/-- the schedule reported in KNOWN_FINDINGS (disconnected-before-drain). -/
+def disconnectedWitness : List Choice :=
+  [.conn .connect, .conn .connect, .start (.recv false), .cons true, .prod, .prod,
+   .conn .disconnect, .conn .final, .conn .final, .cons true, .cons true]
+
+theorem disconnected_full_statement_fails :
+    ¬ ∀ (sched : List Choice) (v : View),
+        (Outcome.disconnectedErr, v) ∈ (run init sched).log → v.pc = .r2 → v.buf = [] ∧ v.ended = true := by
+  intro h
+  have hall : ((run init disconnectedWitness).log.all
+      fun e => e.1 != .disconnectedErr || e.2.pc != .r2 || decide (e.2.buf = [] ∧ e.2.ended = true)) = true := by
+    rw [List.all_eq_true]; intro ⟨o, v⟩ he
+    by_cases ho : o = .disconnectedErr
+    · subst ho
+      by_cases hp : v.pc = .r2
+      · simp [h disconnectedWitness v he hp]
+      · simp [hp]
+    · simp [ho]
+  revert hall; decide
+
+/-! ## emit() / call() -/
+
+/-- emit/call finish in exactly two ways: the client accepted the event (`sent`, at e3), or
+    DisconnectedError after the connection ended for good; TimeoutError belongs to receive() only. -/
+theorem emit_waits (sched : List Choice) (o : Outcome) (v : View)
+    (h : (o, v) ∈ (run init sched).log) :
+    (o = .sent → v.pc = .e3) ∧
+    (o = .disconnectedErr → v.ended = true ∧ v.conn = false) ∧
+    (o = .timeoutErr → v.pc = .r1w ∨ v.pc = .r3w) ∧
+    (v.pc = .e1 ∨ v.pc = .e1w ∨ v.pc = .e2 ∨ v.pc = .e3 → o = .sent ∨ (o = .disconnectedErr ∧ v.ended = true)) := by
+  have hg := (inv_reach sched).logOK _ h
+  cases o <;> simp only [Good] at hg
+  · refine ⟨by simp, by simp, by simp, ?_⟩
+    intro hp; rw [hg.1] at hp; simp at hp
+  · refine ⟨fun _ => hg, by simp, by simp, fun _ => Or.inl rfl⟩
+  · refine ⟨by simp, by simp, fun _ => ?_, ?_⟩
+    · rcases hg.2.2 with ⟨a, _⟩ | ⟨a, _⟩
+      · right; exact a
+      · left; exact a
+    · intro hp
+      rcases hg.2.2 with ⟨a, _⟩ | ⟨a, _⟩ <;> (rw [a] at hp; simp at hp)
+  · exact ⟨by simp, fun _ => ⟨hg.1, hg.2.1⟩, by simp, fun _ => Or.inr ⟨rfl, hg.1⟩⟩
+
+/-- while a reconnection is in progress (a disconnect handler ran, no connect/final handler has set
+    the event since) the connected event is clear, an emit()/call() that reaches the wait parks
+    without an outcome, and once parked nothing but a connection handler moves it. -/
+theorem emit_parks_while_reconnecting (sched : List Choice) :
+    let s := run init sched
+    s.recon = true →
+      s.cev = false ∧
+      (s.cpc = .e1 → ∀ ok, (step s (.cons ok)).cpc = .e1w ∧ (step s (.cons ok)).log = s.log) ∧
+      (s.cpc = .e1w → s.woken = false → ∀ c, (∀ k, c ≠ .conn k) →
+        (step s c).cpc = .e1w ∧ (step s c).woken = false ∧ (step s c).log = s.log) := by
+  intro s hr
+  have hcev : s.cev = false := (inv_reach sched).reconC hr
+  refine ⟨hcev, ?_, ?_⟩
+  · intro hc ok
+    simp [step, consStep, hc, hcev]
+  · intro hc hw c hnc
+    cases c with
+    | conn k => exact absurd rfl (hnc k)
+    | prod => simp only [step, prodStep]; split <;> simp [setInput, hc, hw]
+    | cons ok => simp [step, consStep, hc, hw]
+    | timeout => simp [step, timeoutStep, canTimeout, hc, hw]
+    | start op => simp [step, startStep, hc, hw]
+
+example : let s := run init [.conn .connect, .conn .connect, .start .send, .conn .disconnect, .cons true]
+    s.recon = true ∧ s.cpc = .e1w ∧ s.woken = false := by decide
+
+/-! ## liveness observation -/
+
+/-- the consumer is inside a call and neither its own steps nor the expiry of a timeout move it -/
+def stuck (s : State) : Prop := (∀ ok, consStep s ok = s) ∧ timeoutStep s = s
+
+/-- Once the connection has ended for good (final handler completed: `ended`, connected event set),
+    the only way a call in progress can be stuck is `receive(timeout=None)` parked on `input_event`
+    and not notified — `__disconnect_final` sets the *connected* event only.  In that state, if the
+    producer is idle, the buffer is empty: nothing is lost, but DisconnectedError never surfaces. -/
+theorem deadlock_characterised (sched : List Choice) :
+    let s := run init sched
+    s.ended = true → s.cev = true → s.cpc ≠ .idle →
+      ((stuck s ↔ (s.cpc = .r3w ∧ s.tmo = false ∧ s.woken = false)) ∧
+       (s.cpc = .r3w → s.woken = false → s.ppc = .idle → s.buf = [])) := by
+  intro s he hcev hidle
+  have hi : Inv s := inv_reach sched
+  have hconn : s.conn = false := by
+    cases hc : s.conn
+    · rfl
+    · have := hi.connEnded hc; rw [he] at this; cases this
+  refine ⟨⟨?_, ?_⟩, ?_⟩
+  · intro ⟨h1, h2⟩
+    have hc1 := congrArg State.cpc (h1 true)
+    have hc2 := congrArg State.cpc (h1 false)
+    have ht := congrArg State.cpc h2
+    cases hc : s.cpc
+    case idle => exact absurd hc hidle
+    case r3w =>
+      cases hw : s.woken
+      · cases htm : s.tmo
+        · exact ⟨rfl, rfl, rfl⟩
+        · simp [timeoutStep, canTimeout, hc, hw, htm, finish] at ht
+      · simp [consStep, hc, hw] at hc1
+    case r1w =>
+      cases hw : s.woken
+      · have := hi.parkedC (by simp [hc, CPc.waitsConn]) hw; rw [hcev] at this; cases this
+      · simp [consStep, hc, hw] at hc1
+    case e1w =>
+      cases hw : s.woken
+      · have := hi.parkedC (by simp [hc, CPc.waitsConn]) hw; rw [hcev] at this; cases this
+      · simp [consStep, hc, hw] at hc1
+    case r0 => cases hb : s.buf <;> simp [consStep, hc, hb] at hc1
+    case r1 => simp [consStep, hc, hcev] at hc1
+    case r2 => simp [consStep, hc, hconn, finish] at hc1
+    case r3 => cases hv : s.iev <;> simp [consStep, hc, hv] at hc1
+    case r4 => simp [consStep, hc] at hc1
+    case r5 => cases hb : s.buf <;> simp [consStep, hc, hb, finish] at hc1
+    case e1 => simp [consStep, hc, hcev] at hc1
+    case e2 => simp [consStep, hc, hconn, finish] at hc1
+    case e3 => simp [consStep, hc] at hc2
+  · intro ⟨hc, htm, hw⟩
+    constructor
+    · intro ok; simp [consStep, hc, hw]
+    · simp [timeoutStep, canTimeout, hc, htm]
+  · intro hc hw hp
+    have h1 := (hi.unsigW hc hw).1
+    have h2 := hi.sigIdle hp
+    have h3 := congrArg List.length hi.conserve
+    simp only [List.length_append] at h3
+    exact List.length_eq_zero_iff.mp (by omega)
+
+/-- such a state is reachable: receive() parks on input_event, then disconnect + final. -/
+example : let s := run init [.conn .connect, .conn .connect, .start (.recv false), .cons true,
+    .cons true, .cons true, .cons true, .conn .disconnect, .conn .final, .conn .final]
+    s.ended = true ∧ s.cev = true ∧ s.cpc = .r3w ∧ s.tmo = false ∧ s.woken = false ∧ s.buf = [] := by
+  decide
+
+/-! ## asyncio variant -/
+
+/-- every asyncio schedule is a thread schedule (handlers run to completion, the consumer runs until
+    an await really suspends) … -/
+theorem async_schedule_is_thread_schedule (asched : List Choice) :
+    ∃ sched, Async.run init asched = run init sched := arun_is_run asched init
+
+/-- … so whatever holds after every thread schedule holds after every asyncio schedule. -/
+theorem async_transfer (P : State → Prop) (h : ∀ sched, P (run init sched)) (asched : List Choice) :
+    P (Async.run init asched) := by
+  obtain ⟨l, hl⟩ := async_schedule_is_thread_schedule asched
+  rw [hl]; exact h l
+
+theorem fifo_once_async (asched : List Choice) :
+    (Async.run init asched).returned <+: (Async.run init asched).arrived :=
+  async_transfer (fun s => s.returned <+: s.arrived) fifo_once asched
+
+theorem conservation_async (asched : List Choice) :
+    (Async.run init asched).arrived = (Async.run init asched).returned ++ (Async.run init asched).buf :=
+  async_transfer (fun s => s.arrived = s.returned ++ s.buf) conservation asched
+
+theorem no_lost_wakeup_async (asched : List Choice) :
+    let s := Async.run init asched
+    (s.cpc = .r3w → s.buf ≠ [] → s.woken = true ∨ s.ppc = .appended) ∧
+    (s.cpc = .r3 → s.buf ≠ [] → s.iev = true ∨ s.ppc = .appended) :=
+  async_transfer (fun s => (s.cpc = .r3w → s.buf ≠ [] → s.woken = true ∨ s.ppc = .appended) ∧
+    (s.cpc = .r3 → s.buf ≠ [] → s.iev = true ∨ s.ppc = .appended)) no_lost_wakeup asched
+
+theorem timeout_only_when_unsignalled_partial_async (asched : List Choice) (v : View)
+    (h : (Outcome.timeoutErr, v) ∈ (Async.run init asched).log) :
+    v.tmo = true ∧ v.woken = false ∧
+    ((v.pc = .r3w ∧ available v = 0 ∧ v.iev = false) ∨ (v.pc = .r1w ∧ v.cev = false)) :=
+  async_transfer (fun s => (Outcome.timeoutErr, v) ∈ s.log → _)
+    (fun sched => timeout_only_when_unsignalled_partial sched v) asched h
+
+theorem disconnected_after_drain_partial_async (asched : List Choice) (v : View)
+    (h : (Outcome.disconnectedErr, v) ∈ (Async.run init asched).log) :
+    v.ended = true ∧ v.conn = false ∧ v.fresh = false ∧ (v.pc = .r2 ∨ v.pc = .e2) ∧
+    (v.pc = .r2 → v.returnedN = v.seen ∧ v.seen ≤ v.arrivedN ∧ (v.arrivedN = v.seen → v.buf = [])) :=
+  async_transfer (fun s => (Outcome.disconnectedErr, v) ∈ s.log → _)
+    (fun sched => disconnected_after_drain_partial sched v) asched h
+
+theorem emit_waits_async (asched : List Choice) (o : Outcome) (v : View)
+    (h : (o, v) ∈ (Async.run init asched).log) :
+    (o = .sent → v.pc = .e3) ∧
+    (o = .disconnectedErr → v.ended = true ∧ v.conn = false) ∧
+    (o = .timeoutErr → v.pc = .r1w ∨ v.pc = .r3w) ∧
+    (v.pc = .e1 ∨ v.pc = .e1w ∨ v.pc = .e2 ∨ v.pc = .e3 → o = .sent ∨ (o = .disconnectedErr ∧ v.ended = true)) :=
+  async_transfer (fun s => (o, v) ∈ s.log → _) (fun sched => emit_waits sched o v) asched h
+
+/-- the asyncio counterparts of the two witnesses need the event handler to run after the
+    disconnect handler (the only way an arrival can fall between the buffer test and the wait when
+    the consumer yields only at real suspensions). -/
+def timeoutWitnessAsync : List Choice :=
+  [.conn .connect, .conn .disconnect, .start (.recv true), .cons true, .prod, .timeout]
+
+def disconnectedWitnessAsync : List Choice :=
+  [.conn .connect, .conn .disconnect, .start (.recv false), .cons true, .prod, .conn .final, .cons true]
+
+theorem timeout_full_statement_fails_async :
+    ¬ ∀ (asched : List Choice) (v : View),
+        (Outcome.timeoutErr, v) ∈ (Async.run init asched).log → available v = 0 := by
+  intro h
+  have hall : ((Async.run init timeoutWitnessAsync).log.all
+      fun e => e.1 != .timeoutErr || decide (available e.2 = 0)) = true := by
+    rw [List.all_eq_true]; intro ⟨o, v⟩ he
+    by_cases ho : o = .timeoutErr
+    · subst ho; simp [h timeoutWitnessAsync v he]
+    · simp [ho]
+  revert hall; decide
+
+theorem disconnected_full_statement_fails_async :
+    ¬ ∀ (asched : List Choice) (v : View),
+        (Outcome.disconnectedErr, v) ∈ (Async.run init asched).log → v.pc = .r2 → v.buf = [] ∧ v.ended = true := by
+  intro h
+  have hall : ((Async.run init disconnectedWitnessAsync).log.all
+      fun e => e.1 != .disconnectedErr || e.2.pc != .r2 || decide (e.2.buf = [] ∧ e.2.ended = true)) = true := by
+    rw [List.all_eq_true]; intro ⟨o, v⟩ he
+    by_cases ho : o = .disconnectedErr
+    · subst ho
+      by_cases hp : v.pc = .r2
+      · simp [h disconnectedWitnessAsync v he hp]
+      · simp [hp]
+    · simp [ho]
+  revert hall; decide
+
 end Sio.C19
